@@ -107,9 +107,26 @@ class SimProtoExporter:
     def next_analysis_name(self) -> str:
         """Create a name for the next user-unnamed Analysis.
         Format: `Analysis{num}`, where `num` increases across all analyses."""
-        name = f"Analysis{self.analysis_count}"
-        self.analysis_count += 1
-        return name
+        while True:
+            name = f"Analysis{self.analysis_count}"
+            self.analysis_count += 1
+            if name not in self.user_analysis_names():
+                # Not the name of any user-named Analysis; use it.
+                return name
+
+    def user_analysis_names(self) -> set:
+        """The names users have given to analyses, including nested ones."""
+
+        def names(attrs) -> set:
+            rv = set()
+            for a in attrs:
+                if data.is_analysis(a):
+                    if a.name:
+                        rv.add(a.name)
+                    rv |= names(getattr(a, "inner", []))
+            return rv
+
+        return names(self.sim.attrs)
 
     def export_op(self, op: data.Op) -> vsp.OpInput:
         """Export an operating point analysis"""
